@@ -282,6 +282,10 @@ class ConfigManager(Dict[str, ConfigSection]):
 
         for filename in filenames:
             data = ConfigParser(interpolation=None)
+            # Keep the case of the keys as written: keys that are not option
+            # names become entries of a dictionary option (counter names,
+            # MathJax macro names), and those are case sensitive.
+            data.optionxform = str # type: ignore
             data.read(filename)
 
             for section in data.sections():
@@ -292,8 +296,9 @@ class ConfigManager(Dict[str, ConfigSection]):
                 dictObject = next((x for x in self[section].data.values() if isinstance(x, DictOption)), None)
 
                 for key, val in data.items(section):
-                    if key in self[section].data:
-                        self[section].data[key].setFromString(val)
+                    # Option names themselves are not case sensitive
+                    if key.lower() in self[section].data:
+                        self[section].data[key.lower()].setFromString(val)
                     else:
                         if dictObject is not None:
                             dictObject.set(key, val)
